@@ -16,7 +16,7 @@ Composition: the product capability(3) × residentKey(4) × requireResidentKey(2
 """
 from . import core, flow, names, normal, summary
 from .framework import where, short, api_name
-from .common import AUTH, CLIENT, ceremony, find_aggs, term_fields
+from .common import AUTH, CLIENT, ceremony, find_aggs, term_fields, param_roles
 
 DS = "passkey_authenticator::credential_store::DiscoverabilitySupport"
 RKR = "passkey_types::webauthn::attestation::ResidentKeyRequirement"
@@ -61,6 +61,9 @@ def run(chk):
     mr = p.method(CLIENT, "map_rk")
     if chk.require("T1 map_rk", "T1|map_rk", mr, CLIENT, "Client::map_rk not found"):
         chk.touched(mr)
+        # (private helper: its parameters are taken by type, not by position)
+        ro_mr = param_roles(mr, crit="AuthenticatorSelectionCriteria", info="get_info::Response")
+        P_CRIT, P_INFO = ("param", ro_mr["crit"] or 2), ("param", ro_mr["info"] or 3)
         # evaluate the extracted decision table on the finite product of abstract inputs
         ASC = "passkey_types::webauthn::attestation::AuthenticatorSelectionCriteria"
         asc = p.adts.get(ASC)
@@ -76,12 +79,12 @@ def run(chk):
                 return "false"
             if v == ("sym", "require_resident_key"):
                 return "require"
-            if is_call(v, "Option::is_some_and") and has(v, lambda x: x == ("field", ("param", 3), "options")):
+            if is_call(v, "Option::is_some_and") and has(v, lambda x: x == ("field", P_INFO, "options")):
                 r = closure_ret(p, v[2][1])
                 return "supports" if r == ("field", ("param", 2), "rk") else "?"
             return "?"
 
-        is_opts = lambda x: x == ("field", ("param", 3), "options")
+        is_opts = lambda x: x == ("field", P_INFO, "options")
 
         def supports(rows):
             """the rows say: the authenticator's own `rk` option when it reports options, false when it reports none —
@@ -114,7 +117,7 @@ def run(chk):
             return sel[False] == ("const", 0) and isinstance(rk_of, tuple) and len(rk_of) == 3 and rk_of[0] == "field" and rk_of[2] == "rk" and flow.is_payload_of(rk_of[1], is_opts)
 
         def run_input(crit):
-            rows = S.evaluate(mr, {("param", 2): crit})
+            rows = S.evaluate(mr, {P_CRIT: crit})
             if supports(rows):
                 return "supports"
             rows = [r for r in rows if not r.conds]
@@ -238,6 +241,8 @@ def run(chk):
     if chk.require("R6 credProps", "R6|registration_extension_outputs", reo, CLIENT, "registration_extension_outputs not found"):
         chk.touched(reo)
         outs = normal.rows(S, reo, N, expand=False)
+        ro_reo = param_roles(reo, req="AuthenticationExtensionsClientInputs", info="StoreInfo", rk="bool")
+        P_REQ6, P_INFO6, P_RK6 = ("param", ro_reo["req"] or 2), ("param", ro_reo["info"] or 3), ("param", ro_reo["rk"] or 4)
         present, absent = [], []
         for o in outs:
             cp = dict(o.value[3]).get("cred_props") if o.value[0] == "agg" else None
@@ -269,9 +274,9 @@ def run(chk):
             inner = dict(cp[3]).get("0")
             disc = dict(inner[3]).get("discoverable") if inner and inner[0] == "agg" else None
             v = dict(disc[3]).get("0") if disc and disc[0] == "agg" and disc[2] == "Some" else None
-            vok = v is not None and is_call(v, "DiscoverabilitySupport::is_passkey_discoverable") and v[2][0] == ("field", ("param", 3), "discoverability") and v[2][1] == ("param", 4)
+            vok = v is not None and is_call(v, "DiscoverabilitySupport::is_passkey_discoverable") and v[2][0] == ("field", P_INFO6, "discoverability") and v[2][1] == P_RK6
             ok = ok and member is not None and vok
-            clo_ok = clo_ok and member is not None and member[0] == "field" and member[2] == "cred_props" and has(member, lambda x: x == ("param", 2))
+            clo_ok = clo_ok and member is not None and member[0] == "field" and member[2] == "cred_props" and has(member, lambda x: x == P_REQ6)
             w = "credProps = %s under %s" % (flow.term_str(cp)[:160], [c[-70:] for c in o.cond_strs()])
         for o, cp in absent:
             ok = ok and requested(o) is None
@@ -285,8 +290,9 @@ def run(chk):
         c2 = names.calls_to(reg, "Authenticator::make_credential")
         if chk.require("R6 credProps", "R6|register|sites", len(c1) == 1 and len(c2) == 1, where(reg), "call sites not found"):
             a = c1[0][1]["args"]
-            rk_arg = flow.simplify_term(T.operand(a[3], c1[0][0], "t"))
-            si_arg = flow.simplify_term(T.operand(a[2], c1[0][0], "t"))
+            ro6 = param_roles(reo, info="StoreInfo", rk="bool") if reo is not None else {"info": 3, "rk": 4}
+            rk_arg = flow.simplify_term(T.operand(a[(ro6["rk"] or 4) - 1], c1[0][0], "t"))
+            si_arg = flow.simplify_term(T.operand(a[(ro6["info"] or 3) - 1], c1[0][0], "t"))
             req = flow.simplify_term(T.operand(c2[0][1]["args"][1], c2[0][0], "t"))
             opts = dict(req[3]).get("options") if req[0] == "agg" else None
             rk_sent = dict(opts[3]).get("rk") if opts and opts[0] == "agg" else None
